@@ -116,7 +116,24 @@ RStrings == {VS(s) : s \in RStr3} \cup {VS(<<32, 97, 32>>), VS(<<97, 97, 98, 32,
 RStringsI == {VS(<<65, 66>>), VS(<<97, 66>>), VS(<<65, 98, 32>>), VS(<<98>>), VS(<<66, 65, 98, 97>>)}
 Reps == {VS(<<>>), VS(<<120>>), VS(<<91, 36, 49, 93>>), VS(<<36, 49, 36, 49>>), VS(<<60, 92, 36, 62>>), VS(<<36>>)}        \* "" x [$1] $1$1 <\$> $
 CR(f, args, re) == [fn |-> f, args |-> args, re |-> re]
+\* counted repetitions (small and large counts) of characters and of the class escapes \w \d \s \p{L} and their negations,
+\* anchored and not, on subjects made of letters (ASCII and not), digits, blanks and hyphens
+Uc(c, neg) == [r |-> "uc", c |-> c, neg |-> neg]
+Rep(a, lo, hi) == [r |-> "rep", a |-> a, lo |-> lo, hi |-> hi]
+UcAtoms == {Uc("w", FALSE), Uc("d", FALSE), Uc("s", FALSE), Uc("L", FALSE), Uc("w", TRUE), Uc("d", TRUE), Uc("L", TRUE)}
+Anchored(r) == Re!Cat([r |-> "bol"], Re!Cat(r, [r |-> "eol"]))
+RCounted == UcAtoms
+            \cup {Rep(a, lo, hi) : a \in UcAtoms \cup {Re!Chr(97), [r |-> "rng", lo |-> 97, hi |-> 98, neg |-> FALSE]}, lo \in {0, 2}, hi \in {2, 3, 40}}
+            \cup {Anchored(Rep(a, lo, hi)) : a \in {Uc("w", FALSE), Uc("L", FALSE), Uc("d", FALSE)}, lo \in {1, 8}, hi \in {8, 30, 64}}
+            \cup {Rep(Uc("w", FALSE), 30, 30), Rep(Uc("L", FALSE), 1, 50), Anchored(Rep([r |-> "cls", set |-> <<97, 49>>, neg |-> FALSE], 3, 64)),
+                  Re!Cat(Rep(Uc("L", FALSE), 1, 40), Re!Cat(Re!Chr(45), Rep(Uc("d", FALSE), 2, 4)))}
+UcStrings == {VS(<<>>), VS(<<97>>), VS(<<97, 98, 99>>), VS(<<80, 97, 115, 115, 119, 48, 114, 100, 49, 50, 51, 52>>), VS(<<97, 98, 45, 49, 50, 51>>),
+              VS(<<49, 97, 98, 99, 50, 380, 243, 322, 263, 51>>), VS(<<32, 97, 32, 57>>), VS(<<233, 20013, 1078>>), VS(<<49, 50, 51, 52, 53, 54, 55, 56, 57>>), VS(<<45, 45>>)}
 RegexCases ==
+  {CR("matches", <<s, VS(Re!Render(r))>>, r) : r \in RCounted, s \in UcStrings}
+  \cup {CR("split", <<s, VS(Re!Render(r))>>, r) : r \in RCounted, s \in UcStrings}
+  \cup {CR("replace", <<s, VS(Re!Render(r)), VS(<<35>>)>>, r) : r \in RCounted, s \in UcStrings}
+  \cup
   {CR("matches", <<s, VS(Re!Render(r))>>, r) : r \in Regexes, s \in RStrings}
   \cup {CR("split", <<s, VS(Re!Render(r))>>, r) : r \in Regexes, s \in RStrings}
   \cup {CR("replace", <<s, VS(Re!Render(r)), rep>>, r) : r \in Regexes, s \in RStrings, rep \in Reps}
